@@ -276,7 +276,7 @@ class BindName(Node):
         return visitor.visitBind(self.name, self)
 
     def __str__(self) -> str:
-        return "{name}".format(**vars(self))
+        return ":{name}".format(**vars(self))
 
 
 class RangeLiteral(Node):
